@@ -29,7 +29,7 @@ def execute(case):
     outs = []
     if how == "return":
         outs = [{"p": list(p), "k": k, "dt": dt} for p, k, dt in W.walk_out(val)]
-    return {"id": case["id"], "ev": "Result", "entry": case["entry"], "kind": case["kind"], "dtype": case["dtype"],
+    return {"id": case["id"], "ev": "Result", "entry": e.key, "kind": case["kind"], "dtype": case["dtype"],
             "opt": c.opt, "outcome": how, "exc": type(val).__name__ if how == "raise" else "none", "expect": c.expect,
             "in_dtypes": in_dtypes, "decl": [{"p": list(p), "k": k} for p, k in e.out], "outs": outs}
 
